@@ -12,6 +12,8 @@ fn main() {
     let args: Vec<String> = std::env::args().collect();
     let cmd = args.get(1).map(|s| s.as_str()).unwrap_or("");
     let code = match cmd {
+        "C01" => props::c01::run(),
+        "c01-worker" => props::c01::worker(&args[2..]),
         "C02" => props::c02::run(),
         "C03" => props::c03::run(),
         "C04" => props::c04::run(),
@@ -27,6 +29,7 @@ fn main() {
         "C18" => props::c18::run(),
         "rulegen-stats" => { rulegen_stats(); 0 }
         "try" => { try_rule(&args[2..]); 0 }
+        "try-alias" => { let r = asca::run(&[], &args[4..].to_vec(), &[args[2].clone()].into_iter().filter(|x| !x.is_empty()).collect::<Vec<_>>(), &[args[3].clone()].into_iter().filter(|x| !x.is_empty()).collect::<Vec<_>>()); println!("{:?}", r); 0 }
         "replay" => replay(args.get(2).map(|s| s.as_str()).unwrap_or("")),
         _ => { eprintln!("usage: ascamc <C01..C20> [--tier quick|thorough] | replay <file>"); 2 }
     };
@@ -39,6 +42,7 @@ fn replay(path: &str) -> i32 {
     let pid = v["property"].as_str().unwrap_or("");
     println!("replaying {} :: {}", pid, v["key"].as_str().unwrap_or(""));
     let res = match pid {
+        "C01" => props::c01::replay(&v["case"]),
         "C02" => props::c02::replay(&v["case"]),
         "C03" => props::c03::replay(&v["case"]),
         "C04" => props::c04::replay(&v["case"]),
